@@ -8,6 +8,8 @@ import (
 	"fmt"
 	"math/rand"
 	"net/url"
+	"os"
+	"path/filepath"
 	"regexp"
 	"strconv"
 	"strings"
@@ -109,11 +111,12 @@ type Exec struct {
 	NSess       int
 	Cuts        map[string][2]int
 	Actor       string
+	Extra       map[string]bool // repositories outside the model (created by MkCorrupt)
 	MaxRefPages int
 }
 
 func NewExec(cat *Catalogue, srv *Srv, seed int64) *Exec {
-	e := &Exec{Cat: cat, Srv: srv, Rng: rand.New(rand.NewSource(seed)), Sess: map[string]*sessInfo{}, Cuts: map[string][2]int{}}
+	e := &Exec{Cat: cat, Srv: srv, Rng: rand.New(rand.NewSource(seed)), Sess: map[string]*sessInfo{}, Cuts: map[string][2]int{}, Extra: map[string]bool{}}
 	for _, id := range cat.Order {
 		n := len(cat.C[id].Bytes)
 		a, b := 0, 0
@@ -172,7 +175,8 @@ func (e *Exec) bodyBytes(body string) []byte {
 	case body == "empty":
 		return []byte("{}")
 	case strings.HasPrefix(body, "trunc:"):
-		b := e.Cat.C[body[6:]].Bytes
+		ct := e.Cat.C[body[6:]]
+		b := ct.Bytes[:len(ct.Bytes)-ct.Def.Pad] // cut inside the JSON document, not inside trailing padding
 		return b[:len(b)/2]
 	case strings.HasPrefix(body, "json:"):
 		return []byte(body[5:])
@@ -603,8 +607,40 @@ func (e *Exec) Do(op Op) Resp {
 			r.Note = err.Error()
 		}
 		return r
+	case "Age":
+		n, err := e.Srv.S.VerifAgeRepo(repo, time.Now().Add(-2*time.Hour))
+		r := Resp{Status: 200, Off: -1, StOff: -1, Len: n, Codes: []string{}, List: []string{}, ErrDoc: "none"}
+		if err != nil {
+			r.Status = 500
+			r.Note = err.Error()
+		}
+		return r
+	case "MkCorrupt":
+		// a repository next to the modelled ones whose collection fails (corrupt index), that exists only in the
+		// repository cache (phantom), or whose directory was removed behind the store's back
+		r := Resp{Status: 200, Off: -1, StOff: -1, Len: -1, Codes: []string{}, List: []string{}, ErrDoc: "none"}
+		if e.Srv.Root != "" && e.Srv.Cfg.Store == "dir" {
+			dir := filepath.Join(e.Srv.Root, repo)
+			switch op.Which {
+			case "corrupt":
+				_ = os.MkdirAll(dir, 0o755)
+				_ = os.WriteFile(filepath.Join(dir, "oci-layout"), []byte(`{"imageLayoutVersion":"1.0.0"}`), 0o644)
+				_ = os.WriteFile(filepath.Join(dir, "index.json"), []byte(`{"schemaVersion":2,"manifests":[{corrupt`), 0o644)
+			case "removed":
+				_ = os.RemoveAll(dir)
+			}
+		}
+		e.Srv.Do("GET", "/v2/"+repo+"/tags/list", nil, nil, true, "")
+		e.Extra[repo] = true
+		return r
 	case "GCPass":
 		now := time.Now()
+		for _, rm := range e.Cat.Repos {
+			_ = e.Srv.S.VerifSetRepoTime(e.Cat.RepoReal[rm], now)
+		}
+		for x := range e.Extra {
+			_ = e.Srv.S.VerifSetRepoTime(x, now)
+		}
 		err := e.Srv.S.VerifGCPass(now, now.Add(-time.Minute))
 		r := Resp{Status: 200, Off: -1, StOff: -1, Len: -1, Codes: []string{}, List: []string{}, ErrDoc: "none"}
 		if err != nil {
